@@ -160,3 +160,15 @@ def col2imView (g : Geom) (cols : NDArray α) : Option (NDArray α) := do
 
 end
 end Synap.ConvTools
+
+namespace Synap.ConvTools
+open Synap NDArray
+variable {α : Type} [Zero α]
+
+/-- inverse of `toMatrix`: `(R, L·N)` column matrix back to `(N, R, L)` -/
+def fromMatrix (n : Nat) (m : NDArray α) : NDArray α :=
+  match m.shape with
+  | [r, ln] => if n = 0 then m else ofFn [n, r, ln / n] (fun q => m.get [Np.getI q 1, Np.getI q 2 * n + Np.getI q 0])
+  | _ => m
+
+end Synap.ConvTools
